@@ -32,6 +32,25 @@ ceos_alos2.open_alos2(sys.argv[1], backend_options={"create_cache": True, "use_c
 """
 
 
+# a DEFAULT open (read-only by its options) run under a persisting fault: the same file-size limit that tore the index, or no usable
+# cache directory at all.  It must succeed with the uncached tree (exit 0); 3 = wrong tree, 4 = raised
+CHILD_DEFAULT = r"""
+import os, sys, json, resource, signal
+k = int(sys.argv[3])
+if k >= 0:
+    resource.setrlimit(resource.RLIMIT_FSIZE, (k, k))
+signal.signal(signal.SIGXFSZ, signal.SIG_IGN)
+import ceos_alos2
+from harness import project
+try:
+    fp = project.fingerprint(ceos_alos2.open_alos2(sys.argv[1]))
+except BaseException as e:
+    print("RAISED", type(e).__name__, str(e)[:160]); sys.exit(4)
+ref = json.load(open(sys.argv[2]))
+sys.exit(0 if json.loads(json.dumps(fp)) == ref else 3)
+"""
+
+
 def prefix_lengths(doc, quick):
     n = len(doc)
     if not quick:
@@ -136,7 +155,56 @@ def real_crashes(task):
                     os.remove(lp)
 
         mode = task["mode"]
-        if mode == "fsize":
+        reffile = os.path.join(checklib.fresh_dir("ref_"), "ref.json")
+        with open(reffile, "w") as fh:
+            json.dump(ref, fh)
+        if mode == "concurrent-readers":
+            # several DEFAULT openers at once on a torn index, every file-system mutation of theirs (unlink, rename, truncating open) delayed
+            # so that whatever they do to the torn file overlaps: all must succeed with the uncached tree
+            for where in ("local", "adjacent"):
+                clear()
+                for m in drv.names:
+                    drv.do({"op": "delete", "img": m, "cell": "adjacent"})
+                o = drv.do({"op": "open", "uc": False, "cc": True, "rpc": 2})
+                for m in drv.names:
+                    lp = drv.local_path(m)
+                    doc = open(lp, "rb").read()
+                    if where == "local":
+                        with open(lp, "wb") as fh:
+                            fh.write(doc[: len(doc) // 2])
+                    else:
+                        os.remove(lp)
+                        drv.write_adjacent(m, doc[: len(doc) // 2])
+                cmd = ["strace", "-f", "-qq", "-o", "/dev/null", "-e", "trace=unlink,unlinkat,rename,renameat,renameat2,rmdir",
+                       "-e", "inject=unlink,unlinkat,rename,renameat,renameat2,rmdir:delay_enter=400000", sys.executable, "-W", "ignore", "-c", CHILD_DEFAULT, drv.url, reffile, "-1"]
+                ps = [subprocess.Popen(cmd, env=env, stdout=subprocess.PIPE, stderr=subprocess.STDOUT, text=True) for _ in range(3)]
+                for i, pp in enumerate(ps):
+                    txt, _ = pp.communicate(timeout=120)
+                    out["n"] += 1
+                    if pp.returncode != 0:
+                        out["bad"].append((f"concurrent-default-openers:{where}", f"3 default opens at once on a torn {where} index: opener {i} "
+                                           f"{'returned another tree' if pp.returncode == 3 else 'failed: ' + txt.strip()[-200:]}"))
+                check_open(f"repair-after-concurrent-readers-{where}", {"create_cache": True})
+                check_open(f"cached-after-concurrent-readers-{where}", {"use_cache": True})
+        elif mode == "unusable-cache-dir":
+            # no usable user cache directory (its path is a regular file) and a torn index next to the image: a default open is read-only
+            clear()
+            for m in drv.names:
+                doc = drv.complete_doc(m)
+                drv.write_adjacent(m, doc[: len(doc) // 2])
+            root = os.path.join(os.environ["XDG_CACHE_HOME"], "xarray-ceos-alos2")
+            import shutil as _sh
+
+            _sh.rmtree(root, ignore_errors=True)
+            with open(root, "w") as fh:
+                fh.write("not a directory")
+            try:
+                out["n"] += 1
+                check_open("default-open-without-usable-cache-dir")
+            finally:
+                os.remove(root)
+            check_open("repair-after-unusable-cache-dir", {"create_cache": True})
+        elif mode == "fsize":
             for k in task["ks"]:
                 clear()
                 p = subprocess.run([sys.executable, "-W", "ignore", "-c", CHILD, drv.url, "2", str(k)], env=env, stdout=subprocess.PIPE, stderr=subprocess.STDOUT, text=True)
@@ -147,6 +215,12 @@ def real_crashes(task):
                     # Cache!RepairAfterCreate / Alos2!RepairAfterCreate: a create_cache=True open that RETURNS has written complete indexes
                     out["bad"].append(("create-returned-but-torn", f"open(create_cache=True) returned normally although the write was cut at {k} bytes "
                                        f"(disk full): the index is left {cells} and the caller is not told"))
+                if any(v == "torn" for v in cells.values()):
+                    # the disk is STILL full: a default open writes nothing, so it must not care
+                    pd = subprocess.run([sys.executable, "-W", "ignore", "-c", CHILD_DEFAULT, drv.url, reffile, str(k)], env=env, stdout=subprocess.PIPE, stderr=subprocess.STDOUT, text=True)
+                    if pd.returncode != 0:
+                        out["bad"].append(("default-open-under-persisting-fault", f"index torn at {k} bytes and the file-size limit still in force: default open_alos2 "
+                                           f"{'returned another tree' if pd.returncode == 3 else 'failed: ' + pd.stdout.strip()[-200:]}"))
                 check_open(f"after-disk-full-at-{k}")
                 check_open(f"repair-after-disk-full-at-{k}", {"create_cache": True})
                 check_open(f"cached-after-repair-{k}", {"use_cache": True})
@@ -255,6 +329,8 @@ def body(chk):
               dict(level="1.5", seed=chk.seed + 52, mode="held-writer"),
               dict(level="1.5", seed=chk.seed + 53, mode="held-writer", second_writer=True),
               dict(level="1.5", seed=chk.seed + 54, mode="racing"),
+              dict(level="1.1", seed=chk.seed + 56, mode="concurrent-readers"),
+              dict(level="1.5", seed=chk.seed + 57, mode="unusable-cache-dir"),
               dict(level="1.5", seed=chk.seed + 55, mode="sigkill", lines=3000, delays=[0.6, 0.8, 0.9, 1.0] if quick else [0.3 + 0.05 * i for i in range(30)])]
     rres = checklib.pmap(real_crashes, rtasks, chk.scratch, procs=len(rtasks))
     nreal = 0
